@@ -569,7 +569,8 @@ def substitute(text, old_text, new_text, instance_num=None):
     # Excel reference: https://support.microsoft.com/en-us/office/
     #   substitute-function-6434944e-a904-4336-a9b0-1e58df3bc332
     if instance_num is None:
-        return text.replace(old_text, new_text)
+        # an empty old_text has no occurrence
+        return text.replace(old_text, new_text) if old_text else text
 
     if isinstance(instance_num, bool):
         return VALUE_ERROR
@@ -581,6 +582,9 @@ def substitute(text, old_text, new_text, instance_num=None):
 
     if instance_num <= 0:
         return VALUE_ERROR
+
+    if not old_text:
+        return text
 
     start = 0
     while instance_num > 1:
